@@ -3,18 +3,18 @@ import Qv.Model.Basic
 # Qv.Model.Results — `AnnealResult` / `AnnealResults` as a state machine (C13)
 
 Executable model of `qubovert/sim/_anneal_results.py` **as it is**, including the list behaviour
-`AnnealResults` inherits from `list` without overriding it (`__setitem__`, `__delitem__`, `__rmul__`,
-`sort`, `reverse`).  Core Lean only.
+`AnnealResults` inherits from `list` without overriding it (`sort`, `reverse`).  Core Lean only.
 
 * a result is `(state, value, spin)`; a state (`dict` label → int) is an association list in sorted
   label order (the harness canonicalises; equality of such lists is `dict` equality);
 * a collection is `(items, best)`; every method returns the new collection, the derived collection,
   or the exception the code raises — `TypeError` / `AttributeError` from comparing with a `None`
   `best` included, and `best` left stale by the inherited mutators;
-* the operations the current code gets wrong (DESIGN.md §10 D3) are collected in the table `Impl`:
-  `Impl.current` mirrors the code, `Impl.fixed` mirrors the proposed repair.  `impl` is the one the
-  driver (and hence the correspondence check) uses; after the repair is applied upstream only that
-  definition switches.
+* the operations that violated C13 before the upstream repair (DESIGN.md §10 D3; `fix:` commits
+  98630c1, 99d9853, 0225de2 of `/repo`) are collected in the table `Impl`: `Impl.fixed` mirrors the
+  code as it is now, `Impl.beforeFix` the code before those commits (kept as documentation and for
+  the relapse counter-histories).  `impl` is the one the driver — and hence the correspondence check
+  — uses.
 -/
 namespace Qv.Res
 open Qv
@@ -254,45 +254,45 @@ def Coll.convertStates (s : Coll) (f : PState → PState) : Coll :=
 def Coll.toBoolean (s : Coll) : Except Err Coll := do pure (construct (← mapE Result.toBoolean s.items))
 def Coll.toSpin (s : Coll) : Except Err Coll := do pure (construct (← mapE Result.toSpin s.items))
 
-/-! ## The operations of D3: current code and proposed repair -/
+/-! ## The operations of D3: the code before the repair and the repaired code -/
 
-/-- recompute `best` from the items (what the repaired mutators do) -/
+/-- recompute `best` from the items (what `__setitem__` / `__delitem__` do after `super()`) -/
 def Coll.fixup (s : Coll) : Coll := ⟨s.items, recompute s.items⟩
 
-/-- current `extend` / `__iadd__` with an `AnnealResults` operand:
+/-- `extend` / `__iadd__` with an `AnnealResults` operand *before the repair*:
 `if other.best < self.best: self.best = other.best` then `super().extend(other)`.
 `None < x` is a `TypeError`; `x < None` evaluates `None.value`: `AttributeError`. -/
-def extendARCurrent (s o : Coll) : Except Err Coll :=
+def extendARBeforeFix (s o : Coll) : Except Err Coll :=
   match o.best, s.best with
   | none, _ => throw .type
   | some _, none => throw .attr
   | some ob, some sb => pure ⟨s.items ++ o.items, if ob.value < sb.value then some ob else some sb⟩
 
-/-- repaired: `if other.best is not None and (self.best is None or other.best < self.best)` -/
+/-- as it is now: `if other.best is not None and (self.best is None or other.best < self.best)` -/
 def extendARFixed (s o : Coll) : Except Err Coll :=
   match o.best with
   | none => pure ⟨s.items ++ o.items, s.best⟩
   | some ob => pure ⟨s.items ++ o.items, upd s.best ob⟩
 
-/-- inherited `list.__setitem__(int)`: `best` untouched -/
-def setItemCurrent (s : Coll) (i : Int) (r : Result) : Except Err Coll :=
+/-- plain `list.__setitem__(int)` (what `super().__setitem__` does): `best` untouched -/
+def setItemList (s : Coll) (i : Int) (r : Result) : Except Err Coll :=
   match normIndex s.items.length i with
   | none => throw .index
   | some k => pure ⟨replaceAt s.items k r, s.best⟩
 
-/-- inherited `list.__delitem__(int)`: `best` untouched -/
-def delItemCurrent (s : Coll) (i : Int) : Except Err Coll :=
+/-- plain `list.__delitem__(int)` (what `super().__delitem__` does): `best` untouched -/
+def delItemList (s : Coll) (i : Int) : Except Err Coll :=
   match normIndex s.items.length i with
   | none => throw .index
   | some k => pure ⟨removeAt s.items k, s.best⟩
 
-def setSliceCurrent (s : Coll) (sl : Slice) (v : List Result) : Except Err Coll := do
+def setSliceList (s : Coll) (sl : Slice) (v : List Result) : Except Err Coll := do
   pure ⟨← listSetSlice s.items sl v, s.best⟩
 
-def delSliceCurrent (s : Coll) (sl : Slice) : Except Err Coll := do
+def delSliceList (s : Coll) (sl : Slice) : Except Err Coll := do
   pure ⟨← listDelSlice s.items sl, s.best⟩
 
-/-- the table of the operations whose current behaviour violates C13 -/
+/-- the table of the operations whose behaviour before the repair violated C13 -/
 structure Impl where
   extendAR : Coll → Coll → Except Err Coll
   iaddAR : Coll → Coll → Except Err Coll
@@ -300,32 +300,32 @@ structure Impl where
   delItem : Coll → Int → Except Err Coll
   setSlice : Coll → Slice → List Result → Except Err Coll
   delSlice : Coll → Slice → Except Err Coll
-  /-- does `n * res` (inherited `list.__rmul__`) wrap its result in `AnnealResults`? -/
+  /-- does `n * res` wrap its result in `AnnealResults`?  (before the repair `list.__rmul__` was inherited) -/
   rmulWraps : Bool
 
-/-- the code as it is -/
-def Impl.current : Impl where
-  extendAR := extendARCurrent
-  iaddAR := extendARCurrent
-  setItem := setItemCurrent
-  delItem := delItemCurrent
-  setSlice := setSliceCurrent
-  delSlice := delSliceCurrent
+/-- the code before the repair (documentation; not what `/repo` does any more) -/
+def Impl.beforeFix : Impl where
+  extendAR := extendARBeforeFix
+  iaddAR := extendARBeforeFix
+  setItem := setItemList
+  delItem := delItemList
+  setSlice := setSliceList
+  delSlice := delSliceList
   rmulWraps := false
 
-/-- the code with the proposed repair (report of C13): `None`-aware comparison in `extend` /
-`__iadd__`; `__setitem__` / `__delitem__` overridden to recompute `best`; `__rmul__ = __mul__` -/
+/-- the code as it is: `None`-aware comparison in `extend` / `__iadd__`; `__setitem__` /
+`__delitem__` overridden to call `_recompute_best`; `__rmul__` wraps like `__mul__` -/
 def Impl.fixed : Impl where
   extendAR := extendARFixed
   iaddAR := extendARFixed
-  setItem := fun s i r => do pure (← setItemCurrent s i r).fixup
-  delItem := fun s i => do pure (← delItemCurrent s i).fixup
-  setSlice := fun s sl v => do pure (← setSliceCurrent s sl v).fixup
-  delSlice := fun s sl => do pure (← delSliceCurrent s sl).fixup
+  setItem := fun s i r => do pure (← setItemList s i r).fixup
+  delItem := fun s i => do pure (← delItemList s i).fixup
+  setSlice := fun s sl v => do pure (← setSliceList s sl v).fixup
+  delSlice := fun s sl => do pure (← delSliceList s sl).fixup
   rmulWraps := true
 
 /-- **the switch**: the table the driver runs, i.e. the one compared with `/repo` on every run. -/
-def impl : Impl := Impl.current
+def impl : Impl := Impl.fixed
 
 /-! ## The machine: two collections (`cur` is the receiver, `aux` a second `AnnealResults` object
 that can serve as operand) and the operation alphabet -/
